@@ -490,6 +490,29 @@ def rule_greedy_recursion(rep, crate):
         rep.inst(rid, 'greedy_dotall_check', detail=dict(errs=len(errs), fields=sorted(fl)))
         if not errs or not chk or 'allow_greedy' not in fl:
             rep.viol(rid, 'greedy:check-shape', 'greedy_dotall_check no longer reports check_for_greedy_all() unless definition.allow_greedy', loc(g))
+        else:
+            # the error is recorded exactly on: !allow_greedy.unwrap_or(false) && check_for_greedy_all()
+            allow = None
+            has = None
+            for sb in switches(g):
+                c = cond_of_switch(g, sb)
+                if not c or c['root'][0] != 'call':
+                    continue
+                nm = g.callee_name(c['root'][2])
+                if re.search(r'Option::<T>::unwrap_or$', nm) and 'allow_greedy' in desc(g, c['root'][2]['args'][0]) and const_int(c['root'][2]['args'][1]) == 0:
+                    allow = c
+                if re.search(r'check_for_greedy_all$', nm):
+                    has = c
+            eb = errs[0][0]
+            if allow is None:
+                rep.viol(rid, 'greedy:allow-test', 'the exemption is not `definition.allow_greedy.unwrap_or(false)` (e.g. is_some() would also exempt allow_greedy = false)', loc(g))
+            elif not g.edge_dominates((allow['bb'], allow['f']), eb):
+                rep.viol(rid, 'greedy:allow-polarity', 'the greedy-dot error is not confined to the `allow_greedy is not true` edge', loc(g))
+            if has is None or not g.edge_dominates((has['bb'], has['t']), eb):
+                rep.viol(rid, 'greedy:has-polarity', 'the greedy-dot error is not recorded on the edge where check_for_greedy_all() is true', loc(g))
+            from props.c19 import always_hits
+            if allow is not None and has is not None and not always_hits(g, (has['bb'], has['t']), [eb]):
+                rep.viol(rid, 'greedy:not-always', 'a greedy dot pattern without allow_greedy does not always record the error', loc(g))
         c2 = crate.fns.get('pattern::Pattern::check_for_greedy_all')
         if c2 is not None and ret_desc(c2) != 'call:pattern::Pattern::has_greedy_all(self.hir)':
             rep.viol(rid, 'greedy:forward', 'check_for_greedy_all returns %s' % ret_desc(c2), loc(c2))
